@@ -851,7 +851,10 @@ class Scheduler:
                 self.buffer_tensor(
                     encoded_weights,
                     weight_tensor_purpose,
-                    encoded_weights.double_buffer_sizes[0],
+                    # A single buffer is used by every depth slice, not only by the even ones
+                    encoded_weights.double_buffer_sizes[0]
+                    if weight_tensor_purpose == TensorSubPurpose.DoubleBuffer
+                    else weight_buffer_size,
                     weight_tensor.name + "_buffer",
                 )
             ]
